@@ -10,6 +10,7 @@ import (
 	"math/rand"
 	"sort"
 	"time"
+	_ "time/tzdata" // zone rules embedded: DST locations work offline
 
 	"github.com/pinealctx/neptune/idgen/snowflake"
 
@@ -166,9 +167,106 @@ func doPair(w *tr.W, a, b int64) {
 	})
 }
 
-var zones = []*time.Location{time.UTC, shanghai, time.FixedZone("W", -11*3600), time.FixedZone("odd", 5*3600+45*60)}
+// zones the time arguments are expressed in.  The codec must depend on the instant only: fixed
+// zones with odd offsets and locations with daylight-saving rules (where a wall-clock reading can
+// denote two instants, or none).
+var fixedZones = []*time.Location{time.UTC, shanghai, time.FixedZone("W", -11*3600),
+	time.FixedZone("+0545", 5*3600+45*60), time.FixedZone("-0330", -(3*3600 + 30*60)),
+	time.FixedZone("+000001", 1), time.FixedZone("-115959", -(11*3600 + 59*60 + 59))}
 
-func instant(rng *rand.Rand, absMs int64) time.Time {
+var dstZones = loadZones("America/New_York", "Europe/Berlin", "Australia/Lord_Howe", "America/Sao_Paulo",
+	"Asia/Tehran", "Pacific/Chatham", "Europe/London", "America/St_Johns")
+
+var zones = append(append([]*time.Location{}, fixedZones...), dstZones...)
+
+func loadZones(names ...string) []*time.Location {
+	var out []*time.Location
+	for _, n := range names {
+		loc, err := time.LoadLocation(n)
+		if err != nil {
+			tr.Fatal("zone %s: %v", n, err)
+		}
+		out = append(out, loc)
+	}
+	return out
+}
+
+func offsetAt(loc *time.Location, sec int64) int {
+	_, off := time.Unix(sec, 0).In(loc).Zone()
+	return off
+}
+
+// transition of a location: at unix second `at` the UTC offset changes from `from` to `to`.
+type transition struct {
+	loc      *time.Location
+	at       int64
+	from, to int
+}
+
+// transitions finds the offset changes of loc in [lo, hi) (unix seconds) by comparing the offset at
+// day steps and bisecting to the second.
+func transitions(loc *time.Location, lo, hi int64) []transition {
+	var out []transition
+	for d := lo; d < hi; d += 86400 {
+		a, b := d, d+86400
+		oa, ob := offsetAt(loc, a), offsetAt(loc, b)
+		if oa == ob {
+			continue
+		}
+		for b-a > 1 {
+			m := (a + b) / 2
+			if offsetAt(loc, m) == oa {
+				a = m
+			} else {
+				b = m
+			}
+		}
+		out = append(out, transition{loc, b, oa, ob})
+	}
+	return out
+}
+
+// zinst is an instant (absolute ms) to be expressed in a particular location.
+type zinst struct {
+	abs int64
+	loc *time.Location
+}
+
+// dstInstants: instants in and around the repeated wall-clock span of fall-back transitions (both
+// occurrences of the same reading), the skipped span of spring-forward transitions, inside the
+// window [loAbs, hiAbs] (ms) that the layout can express.
+func dstInstants(rng *rand.Rand, loAbs, hiAbs int64) []zinst {
+	var out []zinst
+	for _, loc := range dstZones {
+		// a few years: the start of the window, random ones, and history (rules that were abolished)
+		years := []int64{0, 1, 2, int64(rng.Intn(40)), int64(rng.Intn(150))}
+		for _, y := range years {
+			lo := loAbs/1000 + y*31556952
+			if lo*1000 > hiAbs {
+				continue
+			}
+			for _, tn := range transitions(loc, lo, lo+31556952+86400) {
+				d := int64(tn.from - tn.to) // > 0: clocks go back, the span [at-d, at) is repeated in [at, at+d)
+				if d < 0 {
+					d = -d
+				}
+				for _, ds := range []int64{-d - 1, -d, -d + 1, -d / 2, -2, -1, 0, 1, 2, d / 2, d - 1, d, d + 1,
+					-rng.Int63n(d + 1), rng.Int63n(d + 1)} {
+					abs := (tn.at+ds)*1000 + int64(rng.Intn(1000))
+					if rng.Intn(4) == 0 {
+						abs = (tn.at+ds)*1000 + []int64{0, 999}[rng.Intn(2)]
+					}
+					if abs >= loAbs && abs <= hiAbs {
+						out = append(out, zinst{abs, loc})
+					}
+				}
+			}
+		}
+	}
+	return out
+}
+
+func instantIn(rng *rand.Rand, absMs int64, loc *time.Location) time.Time {
 	ns := int64(rng.Intn(1000000))
 	if rng.Intn(3) == 0 {
 		ns = []int64{0, 1, 999999}[rng.Intn(3)]
@@ -179,25 +277,34 @@ func instant(rng *rand.Rand, absMs int64) time.Time {
 		sec--
 		rem += 1000
 	}
-	return time.Unix(sec, rem*1000000+ns).In(zones[rng.Intn(len(zones))])
+	return time.Unix(sec, rem*1000000+ns).In(loc)
+}
+
+func instant(rng *rand.Rand, absMs int64) time.Time {
+	return instantIn(rng, absMs, zones[rng.Intn(len(zones))])
 }
 
 func doRange(w *tr.W, rng *rand.Rand, l layout, offB, offE int64) {
-	b := instant(rng, l.epoch+offB)
-	e := instant(rng, l.epoch+offE)
+	doRangeAt(w, instant(rng, l.epoch+offB), instant(rng, l.epoch+offE))
+}
+
+func doRangeAt(w *tr.W, b, e time.Time) {
 	if e.Before(b) {
 		e = b
 	}
 	guard(w, "range", func() {
 		min, max := snowflake.TimeBetweenID(b, e)
 		w.Emit(tr.E{"ev": "range", "fn": "between", "bsec": limbs(b.Unix()), "esec": limbs(e.Unix()),
-			"min": limbs(min), "max": limbs(max)})
+			"min": limbs(min), "max": limbs(max), "zb": b.Location().String(), "ze": e.Location().String()})
 	})
-	guard(w, "range", func() {
-		min, max := snowflake.TimeIDRange(b)
-		w.Emit(tr.E{"ev": "range", "fn": "range", "bsec": limbs(b.Unix()), "esec": limbs(b.Unix()),
-			"min": limbs(min), "max": limbs(max)})
-	})
+	for _, t := range []time.Time{b, e} {
+		t := t
+		guard(w, "range", func() {
+			min, max := snowflake.TimeIDRange(t)
+			w.Emit(tr.E{"ev": "range", "fn": "range", "bsec": limbs(t.Unix()), "esec": limbs(t.Unix()),
+				"min": limbs(min), "max": limbs(max), "zb": t.Location().String(), "ze": t.Location().String()})
+		})
+	}
 }
 
 func main() {
@@ -310,6 +417,46 @@ func main() {
 						ob, oe = oe, ob
 					}
 					doRange(w, rng, l, ob, oe)
+				}
+				// intervals with an endpoint in or around a daylight-saving transition, expressed in the
+				// location that has the transition (and, as a control, in another zone)
+				dst := dstInstants(rng, l.epoch, l.epoch+l.tsMax())
+				for i := 0; i < *nrange/2 && len(dst) > 0; i++ {
+					z := dst[rng.Intn(len(dst))]
+					loc := z.loc
+					if rng.Intn(8) == 0 {
+						loc = zones[rng.Intn(len(zones))]
+					}
+					var other int64
+					switch rng.Intn(6) {
+					case 0:
+						other = z.abs
+					case 1:
+						other = z.abs + int64(rng.Intn(600000)) - 300000
+					case 2:
+						other = z.abs + int64(rng.Intn(4*3600000)) - 2*3600000
+					case 3:
+						other = dst[rng.Intn(len(dst))].abs
+					case 4:
+						other = z.abs + 86400000*int64(rng.Intn(300)-150)
+					default:
+						other = z.abs + []int64{1800000, 3600000, -1800000, -3600000}[rng.Intn(4)]
+					}
+					if other < l.epoch {
+						other = l.epoch
+					}
+					if other > l.epoch+l.tsMax() {
+						other = l.epoch + l.tsMax()
+					}
+					oloc := loc
+					if rng.Intn(3) == 0 {
+						oloc = zones[rng.Intn(len(zones))]
+					}
+					a, b := instantIn(rng, z.abs, loc), instantIn(rng, other, oloc)
+					if b.Before(a) {
+						a, b = b, a
+					}
+					doRangeAt(w, a, b)
 				}
 				restore()
 			}
